@@ -448,3 +448,6 @@ for pid in ('C09', 'C11'):
 # type symbolic and independent: a shortcut keyed on the wrong type's needs_drop is a double drop without any panic)
 PROPS['C03']['mir']['quick'].append(mrun(['map', 'zip', 'fold', 'generate', 'zip.owned_ref', 'zip.ref_owned', 'clone'], nmax=3))
 PROPS['C03']['bounds'] += ' M: generate / map / zip (owned, owned x &, & x owned) / fold / clone with N <= 3 and needs_drop of each element type symbolic.'
+
+# C05: an element destructor that panics inside an explicit clean-up of the collectors (seventh round: builder.clear() before `return Err`)
+PROPS['C05']['mir']['quick'].append(mrun(['try_from_iter', 'try_boxed_from_iter'], nmax=3))
